@@ -242,6 +242,15 @@ def m_code_default(draw, ir):
     p["_dflts"] = st.just(p["default"])
 
 
+def m_code_default_strtype(draw, ir):
+    """A code expression as default under a type that mentions str (the renderers quote such defaults)."""
+    p = _ensure_param(draw, ir)
+    p["typ"], expr = draw(st.sampled_from((("List[str]", "['a', 'b']"), ("Optional[List[str]]", "['a', 'b']"),
+                                          ("Tuple[str, float]", "('a', 0.5)"), ("Union[str, int]", "foo(5)"))))
+    p["default"] = code(expr)
+    p["_dflts"] = st.just(p["default"])
+
+
 def m_code_default_dot(draw, ir):
     p = _ensure_param(draw, ir)
     p["typ"] = draw(st.sampled_from(DOTTED))
@@ -677,6 +686,8 @@ def param_tags(p, prev_has_default=False):
                 t.add("code_default_plain_type")
             if typ is None:
                 t.add("untyped_code_default")
+            # the renderers only quote (and so delimit) a code default when the type mentions str or a string literal
+            t.add("code_default_strtype" if typ is not None and ("str" in type_names(typ) or "'" in typ or '"' in typ) else "code_default_nonstr")
         elif isinstance(d, str):
             t.add("str_default")
             if "." in d:
